@@ -150,7 +150,7 @@ def render_data_unit(src_mode, alpha_kind, pil_source=False):
         # RGBA page): whatever is decided from `img.mode` has to be decided after the image was positioned on the current frame
         def mode_read(e, s, v):
             if v is img0 and s.H(v).get("seeked") is None:
-                e.oblige("C02:mode-looked-at-only-after-an-animated-image-is-positioned-on-its-current-frame", s, Not(animated), prop="C02", kind="pre")
+                e.oblige("C02:mode-looked-at-only-after-an-animated-image-is-positioned-on-its-current-frame", s, Not(animated), prop="C02", kind="pre", replay="C11.current_frame")
         eng.read_hooks = {("PIL.Image", "mode"): mode_read}
         close_image = inline(ctx.fn(COMMON, "BaseImage._close_image"), eng)
         eng.methods[("BlockImage", "_close_image")] = lambda e, s, recv, a, k: e.call(close_image, (recv,) + tuple(a), k, s)
@@ -301,7 +301,7 @@ def render_data_unit(src_mode, alpha_kind, pil_source=False):
                                     oka = And(Not(round_alpha), eqt(av, band))
                                 eng.oblige("C02:threshold:alpha=band-3(rounded-at-round(alpha*255)-iff-requested)", s3, oka, kind="post")
             # frame selection for animated images
-            eng.oblige("C11:animated-image-positioned-on-the-current-frame", s, Implies(animated, h0.get("seeked") is not None and Eq(h0.get("seeked"), seekpos)), prop="C11", kind="post")
+            eng.oblige("C11:animated-image-positioned-on-the-current-frame", s, Implies(animated, h0.get("seeked") is not None and Eq(h0.get("seeked"), seekpos)), prop="C11", kind="post", replay="C11.current_frame")
         # the graphics styles transmit exactly this image (C03 "the payload is the image's pixel data"): the same obligations under C03
         from pyvc.engine import Obligation as _Ob
         for ob in list(eng.obligations):
